@@ -536,6 +536,12 @@ func (c *evalCtx) eval(n *Node) SV {
 		if strings.HasPrefix(b.Sort, "(GSeq ") {
 			return SV{T: app("select", app("gseq.arr", b.T), k.T), Sort: b.Sort[6 : len(b.Sort)-1]}
 		}
+		if strings.HasPrefix(b.Sort, "(Array ") {
+			// value of a spec function with an array sort: the element sort is the last top-level component
+			if parts := splitTop(b.Sort[1 : len(b.Sort)-1]); len(parts) == 3 {
+				return SV{T: app("select", b.T, k.T), Sort: parts[2]}
+			}
+		}
 		return SV{T: app("select", b.T, k.T)}
 	case "update":
 		b := c.eval(n.Args[0])
